@@ -13,7 +13,27 @@ succeed; an evaluation with a missing / unknown / doubly specified variable must
 """
 import math, random, itertools, json, os
 import numpy as np
-from harness.core import import_cuqi, quiet, q, qv, close
+from harness.core import import_cuqi, quiet, q, qv
+from harness.core import close as _close
+
+# margins of the value comparisons (float log-density of the implementation vs exact sum of leaf floats / model value)
+MARGIN = {"comparisons": 0, "max_passing_deviation": 0.0, "min_failing_deviation": None}
+
+
+def close(a, b, tol=1e-9):
+    ok = _close(a, b, tol)
+    try:
+        a_, b_ = float(a), float(b)
+        if a_ == a_ and b_ == b_ and abs(a_) != float("inf") and abs(b_) != float("inf"):
+            d = abs(a_ - b_) / (1.0 + max(abs(a_), abs(b_)))
+            MARGIN["comparisons"] += 1
+            if ok:
+                MARGIN["max_passing_deviation"] = max(MARGIN["max_passing_deviation"], d)
+            elif MARGIN["min_failing_deviation"] is None or d < MARGIN["min_failing_deviation"]:
+                MARGIN["min_failing_deviation"] = d
+    except Exception:  # noqa
+        pass
+    return ok
 
 # float log-densities of the implementation vs the exact sum of the same leaf floats: observed error <= 4e-16 relative;
 # 1e-12 keeps a change of a hyper-parameter by a relative 2^-17 (dim/2 * 7.6e-6 in the log-density) clearly visible
@@ -490,6 +510,8 @@ class Program:
             self.fails.append(("new:JointDistribution:raises", self.desc, "a joint distribution", self.impl[0], "well-formed joint refused by the constructor"))
             return False
         for g in groups:
+            if kind_of(self.cuqi, self.obj_) == "Posterior":
+                break          # (keyword conditioning of the unnamed Posterior: the ordinary generator handles it, known finding)
             if not self.call_cond([], [(n, idx()) for n in g], "keyword", "valid"):
                 return False
         self.kept = []
@@ -660,7 +682,8 @@ class Program:
         kb = kind_of(self.cuqi, obj)
         try:
             with quiet():
-                fixed = [str(t) for t in obj._get_fixed_variables()]
+                gf = getattr(obj, "_get_fixed_variables", None)     # (private helper; same information from the densities if it is renamed)
+                fixed = [str(t) for t in gf()] if gf is not None else [str(d.name) for d in obj._densities if not isinstance(d, Distribution)]
                 dim = obj.dim
                 dims = [int(t) for t in dim] if isinstance(dim, (list, tuple)) else [int(dim)]
                 dens = []
@@ -1352,6 +1375,7 @@ def run_programs(ctx, cuqi, indices, thorough, with_corpus=True):
 
 def run(ctx):
     cuqi = import_cuqi()
+    MARGIN.update({"comparisons": 0, "max_passing_deviation": 0.0, "min_failing_deviation": None})
     thorough = ctx.tier == "thorough"
     nprog = 1000 * (ctx.scale if thorough else 1)
     ctx.trusted += ["leaf oracle: log-density of each original factor computed from a fresh fully specified cuqi distribution (Family(values).logpdf)",
@@ -1366,6 +1390,10 @@ def run(ctx):
     # attribute-level stream (Model/C01_attrs.lean): one distribution, its mutable variables, conditioning / evaluation programs
     from harness.props.c01_attrs import run_attr_programs
     run_attr_programs(ctx, cuqi, 400 * (ctx.scale if thorough else 1))
+    mp = MARGIN["max_passing_deviation"]
+    ctx.extra_cov["value_margin"] = {"tolerance(rel+abs)": TOL, **MARGIN,
+                                     "margin_factor(tolerance/max_passing_deviation)": (TOL / mp) if mp > 0 else "inf",
+                                     "note": "deviation = |impl - expected| / (1 + max(|impl|, |expected|)); failing deviations belong to known findings / seeded defects and are far above the tolerance"}
 
 
 def replay(ctx, payload):
